@@ -246,16 +246,58 @@ def linkSpec : String → Option (Nat × LinkDecoder)
   | "eth" => some (1, .ethernetFrame)
   | "raw" => some (101, .rawIPFrame)
   | "ipv4" => some (228, .ipv4Packet)
+  | "ipv6" => some (229, .ipv6Packet)
   | "sll" => some (113, .sllPacket)
   | "sll2" => some (276, .sll2Packet)
   | "null" => some (0, .loopbackFrame)
   | _ => none
 
-/-- net.IP.String() of a 4 byte address -/
+/-! ### `net.IP.String()` (Go standard library) for 4 and 16 byte addresses, as fieldFlows prints them -/
+
+def hexDigitLower (n : Nat) : Char := if n < 10 then Char.ofNat (48 + n) else Char.ofNat (87 + n)
+
+/-- lower-case hex without leading zeros (netip `appendHex`) -/
+def hexGroup (n : Nat) : String :=
+  let ds := [n / 4096 % 16, n / 256 % 16, n / 16 % 16, n % 16]
+  match ds.dropWhile (· == 0) with
+  | [] => "0"
+  | r => String.ofList (r.map hexDigitLower)
+
+/-- the eight 16 bit groups -/
+def groups16 : List UInt8 → List Nat
+  | h :: l :: rest => (h.toNat * 256 + l.toNat) :: groups16 rest
+  | _ => []
+
+/-- length of the run of zero groups starting at the head -/
+def zeroRun : List Nat → Nat
+  | 0 :: rest => zeroRun rest + 1
+  | _ => 0
+
+/-- netip `Addr.string6`: (start, end) of the leftmost longest run of at least two zero groups -/
+def longestZeroRun (gs : List Nat) : Option (Nat × Nat) :=
+  (List.range gs.length).foldl (fun best i =>
+    let l := zeroRun (gs.drop i)
+    let bestLen := match best with | some (a, b) => b - a | none => 0
+    if l ≥ 2 && l > bestLen then some (i, i + l) else best) none
+
+def ipv6String (gs : List Nat) : String :=
+  match longestZeroRun gs with
+  | none => ":".intercalate (gs.map hexGroup)
+  | some (a, b) =>
+    ":".intercalate ((gs.take a).map hexGroup) ++ "::" ++ ":".intercalate ((gs.drop b).map hexGroup)
+
+/-- net.IP.String(): 4 bytes dotted; 16 bytes: IPv4-mapped (`To4() != nil`) dotted, else RFC 5952 text -/
 def ipString (ip : List UInt8) : String :=
   match ip with
   | [a, b, c, d] => s!"{a.toNat}.{b.toNat}.{c.toNat}.{d.toNat}"
-  | _ => "?"
+  | _ =>
+    if ip.length == 16 then
+      if ip.take 10 == List.replicate 10 0 && (ip.drop 10).take 2 == [255, 255] then
+        match ip.drop 12 with
+        | [a, b, c, d] => s!"{a.toNat}.{b.toNat}.{c.toNat}.{d.toNat}"
+        | _ => "?"
+      else ipv6String (groups16 ip)
+    else "?"
 
 /-- shared.go:39-45: the scalar fields of one direction -/
 structure DirFields where
@@ -268,6 +310,69 @@ deriving Repr, BEq, DecidableEq
 
 def fieldFlowsDir (d : Dir α) : DirFields :=
   { ip := ipString d.ip, port := d.port, hasStart := d.hasStart, hasEnd := d.hasEnd, skippedBytes := d.skippedBytes }
+
+/-! ### order of `tcp_connections` and `ipv4_reassembled`
+
+  `(*Decoder).New` appends to `fd.TCPConnections` (flowsdecoder.go:149) and is called by gopacket's stream
+  pool for the first packet of every 4-tuple that reaches `Assemble` (reassembly/memory.go:185-209: a lookup of
+  the key and of its reverse comes first); `packet` appends to `fd.IPV4Reassembled` when a fragment completes a
+  datagram (flowsdecoder.go:236-240); `fieldFlows` walks both slices in order (shared.go:22,36). -/
+
+/-- connections in the order of their first packet, with the sender of that packet (the "client"):
+    `evs` = (connection key, sender) of every TCP segment that reaches the assembler, in capture order -/
+def firstSeen {κ δ : Type} [BEq κ] : List (κ × δ) → List (κ × δ)
+  | [] => []
+  | (k, d) :: rest => (k, d) :: (firstSeen rest).filter fun p => !(p.1 == k)
+
+/-- state of the defragmenter as the reference sees it: the open fragment groups by (source, destination, id) -/
+abbrev FragGroups (κ α : Type) := List (κ × List (Frag α))
+
+/-- one fragment arrives: either its group is still incomplete (state grows) or the datagram is complete
+    (group removed, datagram emitted together with the fragment that completed it) -/
+def defragStep {κ : Type} [BEq κ] (st : FragGroups κ α) (key : κ) (f : Frag α) :
+    FragGroups κ α × Option (κ × List α × Frag α) :=
+  let grp := ((st.lookup key).getD []) ++ [f]
+  match defragGroup grp with
+  | none => ((key, grp) :: st.filter (fun g => !(g.1 == key)), none)
+  | some payload => (st.filter (fun g => !(g.1 == key)), some (key, payload, f))
+
+/-- the datagrams completed by a sequence of fragments, in order of completion -/
+def defragRun {κ : Type} [BEq κ] : FragGroups κ α → List (κ × Frag α) → List (κ × List α × Frag α)
+  | _, [] => []
+  | st, (key, f) :: rest =>
+    match defragStep st key f with
+    | (st', none) => defragRun st' rest
+    | (st', some d) => d :: defragRun st' rest
+
+def defragState {κ : Type} [BEq κ] : FragGroups κ α → List (κ × Frag α) → FragGroups κ α
+  | st, [] => st
+  | st, (key, f) :: rest => defragState (defragStep st key f).1 rest
+
+/-! ### pcapng sections (format/pcap/pcapng.go:318-376, as the code is)
+
+  `decodePcapng` makes a NEW flows decoder and interface table for every section, flushes the assembler at
+  the end of the section and emits the section's flows (:355-368).  Where a section ends is decided by
+  `decodeSection` (:318-329): with `section_length = -1` the loop runs to the end of the FILE — a further
+  section header block does not start a new section, its interface descriptions are appended to the same
+  table (`dc.interfaceTypes[len(dc.interfaceTypes)] = typ`, :213) while the packets of that section keep
+  counting interface ids from 0 (known finding `pcapng-shb-section`); with a given length the loop runs while
+  `d.Pos()-sectionStart < sectionLength*8`, where `sectionStart` is the start of the section header block
+  although the length excludes that block (known finding `pcapng-section-length`). -/
+
+/-- how fq groups the packets of the file's sections into flows sections -/
+def fqSectioning {β : Type} (lengthGiven : Bool) (fileSections : List (List β)) : List (List β) :=
+  if lengthGiven then fileSections else [fileSections.flatten]
+
+/-- the link type fq uses for interface id `j` of file section `s` (0-based) -/
+def fqInterfaceLink {β : Type} (lengthGiven : Bool) (links : List (List β)) (s j : Nat) : Option β :=
+  if lengthGiven then (links.getD s [])[j]? else ((links.take (s + 1)).flatten)[j]?
+
+/-- with a given section_length fq leaves the section before its last block(s) iff the last block is not
+    longer than the section header block -/
+def sectionEndsEarly (shbLen lastBlockLen : Nat) : Bool := lastBlockLen != 0 && lastBlockLen ≤ shbLen
+
+/-- every section starts from fresh connections: the calls of each section run on their own -/
+def runSections (secs : List (List (SGCall α))) : List (Conn α) := secs.map (runSG {})
 
 /-! ## (iii) the interface assumption about gopacket's assembler, as predicates on call sequences -/
 
